@@ -97,13 +97,17 @@ func sweepDomain() *sweepDom {
 		for i := 0; i < 4096; i++ {
 			lt := gopacket.LayerType(i)
 			if s := lt.String(); s != strconv.Itoa(i) {
+				if strings.HasPrefix(s, "Syn") { // synthetic layer types other harnesses of this binary register
+					names[s] = true
+					continue
+				}
 				d.registered = append(d.registered, lt)
 				names[s] = true
 			}
 		}
 		var unreach []string
 		for n := range gopacket.DecodersByLayerName {
-			if !names[n] {
+			if !names[n] && !strings.HasPrefix(n, "Syn") {
 				unreach = append(unreach, n)
 			}
 		}
